@@ -1,5 +1,6 @@
 ----------------------------- MODULE OptionsTrace -----------------------------
 (* {ev:"fwd", m, names:[..], usage:{name:[types]}, man:{name:value}, med:{name:value}, url_names:[..]}   *)
+(* {ev:"xlate", want, got, url, rep, value}   verr/aerr=<code>=<time of day> -> segment number                       *)
 (* {ev:"codec", name, v1, v2, ok, given}                                                                          *)
 EXTENDS Options, TLC, Json, IOUtils
 TraceLog == ndJsonDeserialize(IOEnv.TRACE_FILE)
@@ -17,6 +18,7 @@ Check(t) ==
     ELSE IF t.ev = "codec" THEN
         /\ Report("C07_CodecIdentity", t.ok = 1 /\ C07_CodecIdentity(t.v1, t.v2), [name |-> t.name])
         /\ Report("C07_CodecMeaning", t.ok = 0 \/ C07_CodecMeaning(t.given, t.v1), [name |-> t.name])
+    ELSE IF t.ev = "xlate" THEN Report("C07_PositionKeepsMeaning", C07_PositionKeepsMeaning(t.want, t.got), [want |-> t.want, got |-> t.got])
     ELSE TRUE
 TraceInit == l = 1
 TraceNext == l <= Len(TraceLog) /\ Check(TraceLog[l]) /\ l' = l + 1
